@@ -546,7 +546,7 @@ Section WithBackend.
               forall rr, rr <> OAbort -> (rr, w0, v0) = (r, w', v') ->
               vinv v' /\ heap_wf (w_live ost w') /\ r <> OAbort).
     { intros w0 v0 A B rr C E. inversion E. subst. repeat split; try apply B; assumption. }
-    destruct o as [t x|t n x|t n|t|t n x|t|]; cbn [v_op]; simpl in Ho.
+    destruct o as [t x|t n x|t n|t|t n x|t| |t x]; cbn [v_op]; simpl in Ho.
     - destruct (v_size v <? v_cap v).
       + apply Done; [exact Hwf | apply vinv_set_size; [exact Iv | lia] | discriminate].
       + destruct (vmax - v_size v <? 1) eqn:E1; [apply Done; [exact Hwf | exact Iv | discriminate]|].
@@ -580,6 +580,14 @@ Section WithBackend.
       apply Done; [exact J2 | apply vinv_set_size; assumption | discriminate].
     - apply Done; [exact Hwf | apply vinv_set_size; [exact Iv | lia] | discriminate].
     - apply Done; [exact Hwf | exact Iv | discriminate].
+    - destruct (v_size v <? v_cap v).
+      + apply Done; [exact Hwf | apply vinv_set_size; [exact Iv | lia] | discriminate].
+      + destruct (vmax - v_size v <? 1) eqn:E1; [apply Done; [exact Hwf | exact Iv | discriminate]|].
+        destruct (vrealloc true w v (grow (v_size v) 1)) as [[r1 w1] v1] eqn:R.
+        assert (Hc : 0 <= grow (v_size v) 1) by (pose proof (grow_good (v_size v) 1); lia).
+        destruct (vrealloc_inv _ _ _ _ _ _ _ Hc Hwf Iv R) as [J1 [J2 [J3 J4]]].
+        destruct r1; try (apply Done; [exact J2 | exact J1 | discriminate]); [|contradiction J3; reflexivity].
+        apply Done; [exact J2 | apply vinv_set_size; [exact J1 | rewrite (J4 eq_refl); lia] | discriminate].
   Qed.
 
   (* -------- ownership: every vector owns exactly its block, nothing else is live *)
@@ -710,7 +718,7 @@ Section WithBackend.
                   vrealloc keep w v c = (r1, w1, v1) /\ w_live ost w' = w_live ost w1 /\
                   v_data v' = v_data v1 /\ (r = OInvalidFree -> r1 = OInvalidFree) /\ 0 <= c)).
     { intros w0 v0 rr A B C E. inversion E. subst. left. auto. }
-    destruct o as [t x|t n x|t n|t|t n x|t|]; cbn [v_op]; simpl in Ho.
+    destruct o as [t x|t n x|t n|t|t n x|t| |t x]; cbn [v_op]; simpl in Ho.
     - destruct (v_size v <? v_cap v); [apply L; try reflexivity; discriminate|].
       destruct (vmax - v_size v <? 1) eqn:E1; [apply L; try reflexivity; discriminate|].
       destruct (vrealloc true w v (grow (v_size v) 1)) as [[r1 w1] v1] eqn:R.
@@ -740,6 +748,12 @@ Section WithBackend.
       destruct r1; inversion E; subst; simpl; repeat split; auto; try discriminate.
     - apply L; try reflexivity; discriminate.
     - apply L; try reflexivity; discriminate.
+    - destruct (v_size v <? v_cap v); [apply L; try reflexivity; discriminate|].
+      destruct (vmax - v_size v <? 1) eqn:E1; [apply L; try reflexivity; discriminate|].
+      destruct (vrealloc true w v (grow (v_size v) 1)) as [[r1 w1] v1] eqn:R.
+      assert (Hc : 0 <= grow (v_size v) 1) by (pose proof (grow_good (v_size v) 1); lia).
+      intro E. right. exists true, (grow (v_size v) 1), r1, w1, v1. split; [exact R|].
+      destruct r1; inversion E; subst; simpl; repeat split; auto; try discriminate.
   Qed.
 
   Lemma pair_own_data live v u v' :
